@@ -172,9 +172,10 @@ structure FOutcome where
   err : Bool
   deriving DecidableEq, Repr
 
-/-- Does the snapshot hand back the bytes it had already consumed when `ReadAll` fails? The code
-does not (`if err != nil { return err }`: the body reader is left where the error struck, and its
-error is sticky): `false`. `repo-patches/C15-fix-snapshot-keeps-read-prefix.patch` makes it `true`. -/
+/-- Does the snapshot hand back the bytes it had already consumed when `ReadAll` fails? Since /repo
+5291428 it does: the body is replaced by a reader over the consumed bytes that then fails with the
+same error (`brokenBody`): `true`. Before that fix (`if err != nil { return err }`: the body reader
+left where the error struck, its error sticky) it did not: `false`, kept as the variant `logFaultK false`. -/
 def snapshotKeepsPrefix : Bool := true
 
 /-- One logger on a message whose body yields `b`. A logger that drains the body (`installs` is
